@@ -370,7 +370,33 @@ def r7_stack_order(ctx):
     ctx.ok('operations on element vectors in des::net::processing inspected: %d' % n, f.where())
 
 
+def r8_bracket_closes_last(ctx):
+    """event_end closes the event: nothing of the module - handler, harness turn, task polls, join handling - runs after
+    incoming_downstream on any returning path of an entry point"""
+    ctx.set_rule('C14.R8')
+    P = ctx.P
+    n = 0
+    for k in (EV + 'handle_message', EV + 'at_sim_start', EV + 'at_sim_end', EV + 'async_wakeup'):
+        g = P.fns.get(k)
+        if g is None:
+            continue
+        ctx.touch(g)
+        for path, outcome, decs in fn_paths(ctx, g):
+            if outcome != 'return':
+                continue
+            effs = path_effects(g, path)
+            dn = [i for i, e in enumerate(effs) if e[0] == 'c' and e[1].name.endswith('Processor::incoming_downstream')]
+            if not dn:
+                continue
+            n += 1
+            late = [e[1].name for e in effs[dn[-1] + 1:] if e[0] == 'c' and (e[1].name.endswith(('Harness::exec', 'LocalSet::block_on', 'Runtime::block_on', 'JoinHandle::is_finished')) or
+                                                                              (e[1].callee or '').startswith('des::net::module::Module::'))]
+            ctx.check(not late, 'nothing-after-event-end:%s' % k.split('::')[-1], 'after event_end nothing of the module runs in this event', g.where_path(path), late[:3])
+    ctx.floor('bracket-closing paths of the entry points', n, 4)
+
+
 def run(ctx):
+    r8_bracket_closes_last(ctx)
     r7_stack_order(ctx)
     r1_pairing(ctx)
     r2_directions(ctx)
